@@ -170,6 +170,61 @@ type Sim struct {
 	maxSteps int
 	cleanup  []func()
 	stuck    bool
+
+	reqMu sync.Mutex
+	reqs  []*driverReq
+}
+
+type driverReq struct {
+	kind string
+	d    time.Duration
+	ch   chan struct{}
+}
+
+// Request is called by an actor: it blocks until the driver, at the next
+// quiescent point, has performed the request ("advance": move the clock by d;
+// "sync": run the engine's quiescent-point check).
+func (sim *Sim) Request(kind string, d time.Duration) {
+	r := &driverReq{kind: kind, d: d, ch: make(chan struct{})}
+	sim.reqMu.Lock()
+	sim.reqs = append(sim.reqs, r)
+	sim.reqMu.Unlock()
+	<-r.ch
+}
+
+// DriveAll drives to quiescence, serves the actors' requests there (clock
+// advances, sync points) and repeats until nothing is left to do.
+func (sim *Sim) DriveAll(onSync func()) DriveStatus {
+	for {
+		if st := sim.Drive(); st != Quiescent {
+			return st
+		}
+		sim.reqMu.Lock()
+		reqs := sim.reqs
+		sim.reqs = nil
+		sim.reqMu.Unlock()
+		if len(reqs) == 0 {
+			return Quiescent
+		}
+		synced := false
+		for _, r := range reqs {
+			switch r.kind {
+			case "advance":
+				sim.Res.Stats.Fault("clock-jump")
+				if st := sim.Advance(r.d); st != Quiescent {
+					return st
+				}
+			case "sync":
+				if !synced && onSync != nil {
+					onSync()
+					synced = true
+				}
+			}
+		}
+		for _, r := range reqs {
+			close(r.ch)
+		}
+	}
 }
 
 // Cleanup registers f to run (on the driver, in reverse order) when the body
